@@ -20,17 +20,22 @@ import (
 type vCrashCfg struct {
 	Rounds   int    // completed Add;Rotate;Flush rounds before the in-flight operation
 	Compact  bool   // one completed compaction (threshold 2) after the rounds
-	InFlight string // "flush" | "compact"
+	InFlight string // "flush" | "flush2" | "compact" | "flushfault" (a flush whose Fault-th write fails: the crash hits its clean-up)
 	Tmpl     string
+	Fault    int
 }
 
 func (c vCrashCfg) String() string {
-	return fmt.Sprintf("crash rounds=%d compact=%v inflight=%s tmpl=%s", c.Rounds, c.Compact, c.InFlight, c.Tmpl)
+	s := fmt.Sprintf("crash rounds=%d compact=%v inflight=%s tmpl=%s", c.Rounds, c.Compact, c.InFlight, c.Tmpl)
+	if c.Fault > 0 {
+		s += fmt.Sprintf(" fault=%d", c.Fault)
+	}
+	return s
 }
 
 func vParseCrashCfg(s string) vCrashCfg {
 	var c vCrashCfg
-	fmt.Sscanf(s, "crash rounds=%d compact=%t inflight=%s tmpl=%s", &c.Rounds, &c.Compact, &c.InFlight, &c.Tmpl)
+	fmt.Sscanf(s, "crash rounds=%d compact=%t inflight=%s tmpl=%s fault=%d", &c.Rounds, &c.Compact, &c.InFlight, &c.Tmpl, &c.Fault)
 	return c
 }
 
@@ -41,6 +46,7 @@ type vCrashHistory struct {
 	inflight []uint32   // documents of the in-flight memtable
 	ever     map[uint32]int
 	dead     string
+	faultHit bool // flushfault: the injected write error was reached (Flush returned an error)
 }
 
 // vCrashRecord runs the history once and records the in-flight operation's log.
@@ -71,7 +77,7 @@ func vCrashRecord(cfg vCrashCfg) *vCrashHistory {
 	if cfg.Compact {
 		env.do(func() { st.TriggerCompaction(); vrt.Quiesce() })
 	}
-	if cfg.InFlight == "flush" {
+	if cfg.InFlight == "flush" || cfg.InFlight == "flushfault" {
 		round()
 		h.inflight = []uint32{id - 1}
 	}
@@ -86,6 +92,12 @@ func vCrashRecord(cfg vCrashCfg) *vCrashHistory {
 	switch cfg.InFlight {
 	case "flush", "flush2":
 		env.do(func() { st.Flush() })
+	case "flushfault":
+		var ferr error
+		env.fs.FailOn("write", cfg.Fault)
+		env.do(func() { ferr = st.Flush() })
+		env.fs.ClearFaults()
+		h.faultHit = ferr != nil
 	case "compact":
 		env.do(func() { st.TriggerCompaction(); vrt.Quiesce() })
 	}
@@ -107,7 +119,7 @@ func (h *vCrashHistory) image(p vCrashPoint) *vos.MemFS {
 	if p.torn >= 0 && p.ops < len(h.log) {
 		img.ApplyOp(h.log[p.ops], p.torn)
 	}
-	img.RemoveRaw(vStoreDir + "/LOCK") // the stale lock is removed, as the property prescribes
+	img.RemoveRaw(vLock()) // the stale lock is removed, as the property prescribes
 	return img
 }
 
@@ -181,7 +193,7 @@ func vCrashCheck(c *vCtx, cfg vCrashCfg, h *vCrashHistory, p vCrashPoint, prop s
 			if t >= 0 {
 				img.ApplyOp(sec.log[i], t)
 			}
-			img.RemoveRaw(vStoreDir + "/LOCK")
+			img.RemoveRaw(vLock())
 			hist := append(append([]string{}, sec.hist...), fmt.Sprintf("recovered; AddWithID 50; Rotate; second crash after %d of %d file-system operations of the next flush, %d bytes of the next write", i, len(sec.log), t))
 			c.Evaluations++
 			c.Traces++
@@ -288,6 +300,7 @@ func vCrashCheck1(c *vCtx, cfg vCrashCfg, h *vCrashHistory, p vCrashPoint, prop 
 		}
 	}
 	results := map[int]map[uint32]float64{}
+	noWitness := map[uint32]bool{}
 	for _, q := range vStoreQueries(cfg.Tmpl) {
 		var got map[uint32]float64
 		var serr error
@@ -301,6 +314,12 @@ func vCrashCheck1(c *vCtx, cfg vCrashCfg, h *vCrashHistory, p vCrashPoint, prop 
 			continue
 		}
 		results[q] = got
+		for _, id := range h.inflight {
+			// witness evaluated right after the search that returned the document
+			if _, ok := got[id]; ok && !vTornWitness(st, id) {
+				noWitness[id] = true
+			}
+		}
 		for id := range got {
 			if _, ok := h.ever[id]; !ok {
 				c.Violation("returned-never-added-id", "", cfgS, hist, fmt.Sprintf("query %d returned %d", q, id))
@@ -367,7 +386,10 @@ func vCrashCheck1(c *vCtx, cfg vCrashCfg, h *vCrashHistory, p vCrashPoint, prop 
 			}
 		}
 		if present > 0 && torn {
-			cause := "torn-segment-partially-decoded-into-shared-templates"
+			cause := ""
+			if !noWitness[id] {
+				cause = "torn-segment-partially-decoded-into-shared-templates"
+			}
 			c.Violation("incomplete-segment-contributed-documents", cause, cfgS, hist, fmt.Sprintf("document %d of the in-flight memtable is returned by %d probes although its segment is incomplete; segments in image %v", id, present, segFiles))
 		} else if present > 0 && absent > 0 {
 			c.Violation("in-flight-documents-partially-visible", "", cfgS, hist, fmt.Sprintf("document %d: %d probes find it, %d do not", id, present, absent))
@@ -455,6 +477,11 @@ func vCrashShard(cfg vCrashCfg) vShard {
 			c.Violation("history-aborted", vDeadCause(h.dead), cfg.String(), nil, h.dead)
 			return
 		}
+		if cfg.InFlight == "flushfault" && !h.faultHit {
+			c.Extra["fault_positions_beyond_the_flush"]++
+			c.Bound = "fault position beyond the last write of the flush: nothing to explore"
+			return
+		}
 		pts := h.points()
 		c.Extra["crash_images"] += int64(len(pts))
 		c.Extra["in_flight_fs_operations"] += int64(len(h.log))
@@ -490,7 +517,7 @@ func vC16StoreRun(c *vCtx, tmpl string, nseg int) {
 		return
 	}
 	base := h.snap
-	base.RemoveRaw(vStoreDir + "/LOCK")
+	base.RemoveRaw(vLock())
 	files := base.Files()
 	var names []string
 	for p := range files {
@@ -541,7 +568,11 @@ func vC16StoreRun(c *vCtx, tmpl string, nseg int) {
 					onlyInDamaged := int(id) == segID && segID == nseg
 					inIntact := int(id) < segID || segID < nseg
 					if onlyInDamaged && present {
-						c.Violation("damaged-segment-contributed-documents", "partially-decoded-into-shared-templates", cfgS, hist, fmt.Sprintf("query %d returned %v although document %d exists only in the damaged segment %d", q, vIDSet(got), id, segID))
+						cause := ""
+						if vTornWitness(st, id) {
+							cause = "partially-decoded-into-shared-templates"
+						}
+						c.Violation("damaged-segment-contributed-documents", cause, cfgS, hist, fmt.Sprintf("query %d returned %v although document %d exists only in the damaged segment %d", q, vIDSet(got), id, segID))
 					}
 					if inIntact && !onlyInDamaged && !present {
 						cause := ""
@@ -589,6 +620,13 @@ func init() {
 			maxR := 3
 			if tier == "thorough" {
 				maxR = 5
+			}
+			// a flush that FAILS (its n-th write returns EIO) and cleans up after itself, with
+			// the process dying at every point of that clean-up: every n, 1 completed round
+			for _, tm := range []string{"vtm", "v"} {
+				for n := 1; n <= 16; n++ {
+					sh = append(sh, vCrashShard(vCrashCfg{Rounds: 1, InFlight: "flushfault", Tmpl: tm, Fault: n}))
+				}
 			}
 			for _, tm := range []string{"vtm", "v"} {
 				for r := 0; r <= maxR; r++ {
